@@ -1,7 +1,7 @@
 """C09 — merging never forgets a result (DESIGN §4/C09)."""
 from rules import lib
 from rules.lib import Prov, show, walk
-from props import common, mergetab
+from props import common, mergetab, sides
 
 LEVEL = ("Mechanism level. Decision tables of the five state mergers extracted from MIR: no cell replaces a known "
          "result (Executed/Failed) by a pending request, one-sided cells keep the one state, two-sided cells of par/fold "
@@ -12,6 +12,8 @@ LEVEL = ("Mechanism level. Decision tables of the five state mergers extracted f
 
 def check(ctx):
     F = ctx.facts("prod")
+    sides.check_sides(ctx, F)
+    mergetab.positions_mapping_table(ctx, F)
     ctx.clause("R-TABLE monotonicity of call and canon merge tables; one-sided cells of the five mergers return the present state")
     ctx.clause("R-MUST lock-step: each try_merge_next_state_as_* calls next_state on the previous and the current slider exactly once on every path")
     ctx.clause("R-MUST update_ctx_states restores both contexts")
